@@ -38,10 +38,12 @@ type Conn struct {
 	Local     net.Addr
 	OnWrite   func(w Write) // called in the writer's goroutine after recording
 	CloseErr  error
-	CloseGate chan struct{} // when set, every Close waits for it (to hold a client's Close open)
-	OnClose   func()        // called on entry of every Close, before the gate
-	active    atomic.Int32  // ReadFrom calls in progress
-	LogReads  bool          // keep a copy of what every successful ReadFrom handed to the reader
+	CloseGate chan struct{}     // when set, every Close waits for it (to hold a client's Close open)
+	OnClose   func()            // called on entry of every Close, before the gate
+	active    atomic.Int32      // ReadFrom calls in progress
+	WriteErr  func(n int) error // fault injection: when set and non-nil for the n-th WriteTo (0-based), that write fails with it
+	nwrites   atomic.Int32
+	LogReads  bool // keep a copy of what every successful ReadFrom handed to the reader
 	readLog   [][]byte
 }
 
@@ -102,6 +104,11 @@ func (c *Conn) WriteTo(p []byte, addr net.Addr) (int, error) {
 	case <-c.closed:
 		return 0, net.ErrClosed
 	default:
+	}
+	if c.WriteErr != nil {
+		if err := c.WriteErr(int(c.nwrites.Add(1)) - 1); err != nil {
+			return 0, err
+		}
 	}
 	w := Write{At: time.Since(c.start), To: addr, B: append([]byte{}, p...)}
 	c.mu.Lock()
